@@ -3,7 +3,8 @@
    HttpResponse.parse + is_read_completely + InsecureHomeKitProtocol.data_received)
    is tied to the code by the correspondence check harness/c07.py. *)
 From Coq Require Import List NArith ZArith Arith Bool.
-From AHK Require Import Lib.ByteStr Model.Http Proofs.HttpStep Proofs.HttpFeed.
+From AHK Require Import Lib.ByteStr Model.Http Model.HttpWire Proofs.HttpStep Proofs.HttpFeed
+  Proofs.HttpCorrect Proofs.HttpInv.
 Import ListNotations.
 
 (* For EVERY parser state s (reachable or not) and all reads a, b: if the run on
@@ -61,8 +62,49 @@ Proof.
   repeat split; try (vm_compute; reflexivity); vm_compute; discriminate.
 Qed.
 
+(* For every list of well-formed messages (grammar wf_wire of Model/HttpWire.v:
+   status line and header lines without CR LF, version and code without blanks,
+   parsable code, HTTP/ or EVENT/ version, body fixed-length / chunked / absent
+   with framing headers that agree with it, any header casing), feeding their
+   concatenation delivers exactly these messages (kind, version, code, reason,
+   headers, body), in order, and leaves a fresh parser with an empty buffer. *)
+Theorem hfeed_correct : forall ws,
+    forallb wf_wire ws = true ->
+    hfeed hinit (concat (map render ws)) = (hinit, map interp ws).
+Proof. exact hfeed_correct_lem. Qed.
+
+(* ... and so does every segmentation of that stream into reads *)
+Theorem hfeed_correct_segmented : forall ws ds,
+    forallb wf_wire ws = true -> concat ds = concat (map render ws) ->
+    hfeeds hinit ds = (hinit, map interp ws).
+Proof. exact hfeed_correct_seg. Qed.
+
+(* the model's only defensive branch (body_step, remaining <= 0) is dead on
+   every state reachable from a fresh connection *)
+Theorem hfeed_guard_dead : forall ds p raw,
+    fst (hfeeds hinit ds) = Run p raw ->
+    ph p = Body -> chunked p = false -> (0 < clen p)%Z ->
+    Z.leb (clen p - Z.of_nat (length (body p))) 0 = false.
+Proof. exact body_guard_dead. Qed.
+
+(* non-vacuity of wf_wire: the stream of c07_nonvacuous is the rendering of three
+   well-formed messages (lower-case content-length, blank before the value) *)
+Example c07_wf_nonvacuous :
+  let ws := [ mkW [72;84;84;80;47;49;46;49]%N [50;48;52]%N [78;111;32;67;111;110;116;101;110;116]%N [] FNone;
+              mkW [69;86;69;78;84;47;49;46;48]%N [50;48;48]%N [79;75]%N [([99;111;110;116;101;110;116;45;108;101;110;103;116;104]%N, [32;53]%N)] (FFixed [104;101;108;108;111]%N);
+              mkW [72;84;84;80;47;49;46;49]%N [50;48;48]%N [79;75]%N [([84;114;97;110;115;102;101;114;45;69;110;99;111;100;105;110;103]%N, [32;99;104;117;110;107;101;100]%N)] (FChunked [([51]%N, [97;98;99]%N)] [48]%N) ] in
+  forallb wf_wire ws = true /\ length (concat (map render ws)) = 131 /\
+  map (fun m => (m_kind m, m_code m, m_headers m, m_body m)) (map interp ws)
+  = [(KHttp, 204%Z, [], []);
+     (KEvent, 200%Z, [(s_cl, [53]%N)], [104;101;108;108;111]%N);
+     (KHttp, 200%Z, [(s_te, s_chunked)], [97;98;99]%N)].
+Proof. cbv zeta. repeat split; vm_compute; reflexivity. Qed.
+
 Print Assumptions hfeed_app.
 Print Assumptions hfeed_app_total.
 Print Assumptions hfeed_segmentations.
 Print Assumptions hfeed_one_piece.
 Print Assumptions hfeed_leftover.
+Print Assumptions hfeed_correct.
+Print Assumptions hfeed_correct_segmented.
+Print Assumptions hfeed_guard_dead.
